@@ -5,6 +5,7 @@ import (
 	"context"
 	"encoding/json"
 	"fmt"
+	"math"
 	"math/rand"
 	"reflect"
 	"strings"
@@ -211,6 +212,21 @@ func runC19Case(cc c19Case, lines, expect, what *[]string) (string, string) {
 			*expect = append(*expect, "invalid")
 			*what = append(*what, "Lean JSON codec rejects "+trunc(doc, 60))
 		}
+	case "unmarshalable":
+		// a value encoding/json cannot encode: wsjson.Write must fail, put nothing on the wire and leave the
+		// connection usable for the next value
+		vals := []interface{}{make(chan int), func() {}, math.Inf(1), map[string]interface{}{"ok": 1, "bad": make(chan bool)}, []interface{}{1, math.NaN()}}
+		v := vals[int(cc.Seed)%len(vals)]
+		if err := wsjson.Write(ctx, c, v); err == nil {
+			return "unmarshalable-value-written", fmt.Sprintf("%s: wsjson.Write(%T) returned nil", desc, v)
+		}
+		if err := wsjson.Write(ctx, c, map[string]int{"after": 1}); err != nil {
+			return "connection-dead-after-marshal-error", fmt.Sprintf("%s: the next wsjson.Write failed: %v", desc, err)
+		}
+		f, err := peer.readFrame(3 * time.Second)
+		if err != nil || f.Op != 1 || !f.Fin || strings.TrimSpace(string(f.Payload)) != `{"after":1}` {
+			return "marshal-error-left-bytes-on-the-wire", fmt.Sprintf("%s: after a failed wsjson.Write(%T) the peer received %+v (%q), %v — expected exactly the next value", desc, v, f, trunc(string(f.Payload), 60), err)
+		}
 	case "raw-target":
 		doc := `{"a":[1,2,{"b":null}],"c":"x"}`
 		peer.writeFrame(RawFrame{Fin: true, Op: 1, Payload: []byte(doc)})
@@ -250,7 +266,7 @@ func runC19Case(cc c19Case, lines, expect, what *[]string) (string, string) {
 func runC19(ctx *runCtx) {
 	rep := ctx.rep
 	rep.Rule = "JSON values from a recursive generator (nesting <= 4, null/bool/integers/floats, strings with escapes, unicode and control characters, arrays, objects, 40-70 KB strings beyond the default read limit with the limit raised), written with wsjson.Write and observed by a raw peer (exactly one text message, payload = json.Marshal + newline, nothing after it) and read back with wsjson.Read from a fragmented message followed by another message (exactly one consumed); " +
-		"malformed and truncated documents into every kind of target (interface, RawMessage, map, struct, slice: error + Close 1007); RawMessage and []byte targets checked after later reads and 16 concurrent connections sharing the buffer pool (aliasing); the Lean JSON codec compared on the integer fragment. distinct = case tuple"
+		"malformed and truncated documents into every kind of target (interface, RawMessage, map, struct, slice: error + Close 1007); values encoding/json cannot encode (error, nothing on the wire, connection usable); RawMessage and []byte targets checked after later reads and 16 concurrent connections sharing the buffer pool (aliasing); the Lean JSON codec compared on the integer fragment. distinct = case tuple"
 	if ctx.replay != "" {
 		var cc c19Case
 		if err := loadReplay(ctx.replay, &cc); err == nil && cc.Kind != "" {
@@ -276,6 +292,9 @@ func runC19(ctx *runCtx) {
 	}
 	bad := []string{"", "{", "}", "[1,2", `{"a":}`, `{"a" 1}`, `{a:1}`, `"unterminated`, "nul", "tru", "[1,]", `{"a":1,}`, "1 2", `"\x"`, "\"\x01\"", "[", "]", "--1", "+1", "0x10", `{"a":1}}`, "'single'", `"\u12"`, `[1 2]`, "{}{}"}
 	for i, d := range bad {
+		if i < 5 {
+			cases = append(cases, c19Case{Client: i%2 == 0, Kind: "unmarshalable", Seed: int64(i)})
+		}
 		cases = append(cases, c19Case{Client: i%2 == 0, Kind: "invalid", Doc: d, Seed: ctx.seed}, c19Case{Client: i%2 == 1, Kind: "invalid", Doc: d, Seed: ctx.seed, Target: 1}, c19Case{Client: i%2 == 0, Kind: "invalid", Doc: d, Seed: ctx.seed, Target: 2 + i%3})
 	}
 	for i := 0; i < n/10; i++ {
